@@ -22,7 +22,7 @@ import (
 
 type C17Cut struct {
 	N    int    `json:"n"`    // the write is cut after N bytes (RLIMIT_FSIZE)
-	Mode string `json:"mode"` // crash (process killed by SIGXFSZ) | ioerr (write returns EFBIG)
+	Mode string `json:"mode"` // crash (process killed by SIGXFSZ) | ioerr (write returns EFBIG) | ioerr-same (EFBIG in this process; the same store object then stores again)
 }
 
 type C17Case struct {
@@ -83,7 +83,7 @@ func genC17(t *rapid.T, tier string) C17Case {
 	c := C17Case{Payload: base64.StdEncoding.EncodeToString(b)}
 	nc := rapid.IntRange(1, 3).Draw(t, "ncuts")
 	for i := 0; i < nc; i++ {
-		cut := C17Cut{Mode: rapid.SampledFrom([]string{"crash", "ioerr"}).Draw(t, "mode")}
+		cut := C17Cut{Mode: rapid.SampledFrom([]string{"crash", "ioerr", "ioerr-same"}).Draw(t, "mode")}
 		switch rapid.IntRange(0, 4).Draw(t, "where") {
 		case 0:
 			cut.N = rapid.SampledFrom([]int{0, 1, n - 1, n, n + 1}).Draw(t, "edge")
@@ -113,7 +113,7 @@ func enumC17(tier string, shard, nshards int, yield func(C17Case) bool) (bool, s
 		}
 		p := base64.StdEncoding.EncodeToString(b)
 		for n := 0; n <= l; n++ {
-			for _, mode := range []string{"crash", "ioerr"} {
+			for _, mode := range []string{"crash", "ioerr", "ioerr-same"} {
 				i++
 				if i%nshards != shard {
 					continue
@@ -182,6 +182,38 @@ func runC17(c C17Case, o *run.Obs) error {
 	}
 	nontrivial := false
 	for i, cut := range c.Cuts {
+		if cut.Mode == "ioerr-same" {
+			// the write fails with EFBIG inside this process; the SAME store object is then asked to store again
+			p := file.NewPersistForPath(dir)
+			var old syscall.Rlimit
+			if err := syscall.Getrlimit(syscall.RLIMIT_FSIZE, &old); err != nil {
+				return fmt.Errorf("harness: getrlimit: %w", err)
+			}
+			lim := syscall.Rlimit{Cur: uint64(cut.N), Max: old.Max}
+			if err := syscall.Setrlimit(syscall.RLIMIT_FSIZE, &lim); err != nil {
+				return fmt.Errorf("harness: setrlimit: %w", err)
+			}
+			serr := p.Store(ctx, name, payload)
+			if err := syscall.Setrlimit(syscall.RLIMIT_FSIZE, &old); err != nil {
+				panic("harness: cannot restore RLIMIT_FSIZE: " + err.Error())
+			}
+			when := fmt.Sprintf("payload of %d bytes, attempt %d cut at byte %d (I/O error in-process, Store returned %v)", len(payload), i+1, cut.N, serr)
+			if err := check(when, serr == nil); err != nil {
+				return err
+			}
+			// the same object stores the node again, now without a limit: must succeed and be complete
+			if err := p.Store(ctx, name, payload); err != nil {
+				return fmt.Errorf("%s: storing the node again through the same store object failed: %v", when, err)
+			}
+			if b, err := p.Load(ctx, name); err != nil || !bytes.Equal(b, payload) {
+				return fmt.Errorf("%s: after storing the node again through the same store object, Load returns %d bytes, err=%v", when, len(b), err)
+			}
+			if cut.N > 0 && cut.N < len(payload) {
+				nontrivial = true
+			}
+			o.Label("mode=ioerr-same")
+			continue
+		}
 		exit, err := runChild(dir, name, c.Payload, cut)
 		if err != nil {
 			return fmt.Errorf("harness: child process: %w", err)
